@@ -197,15 +197,7 @@ func c02Set(ctx *Ctx, ety cty.Type, ms []cty.Value) {
 	}
 	// a value equal to no member is not an element
 	probe := genVal(ctx.R, ety, 1, ValOpts{Small: true})
-	inRef := false
-	for _, m := range ms {
-		if m.Equals(probe).True() {
-			inRef = true
-		}
-	}
-	if h := s.HasElement(probe); !h.IsKnown() || h.True() != inRef {
-		ctx.Fail(Failure{Site: "haselement", Sig: "haselement:reference", What: "HasElement disagrees with a linear scan using Equals", Input: w + " " + encVal(probe), GoLit: s.GoString(), Outcome: h.GoString()})
-	}
+	c02HasElementRef(ctx, s, ms, probe)
 	// distinct count
 	distinct := 0
 	for i, m := range ms {
@@ -267,4 +259,50 @@ func c02Tuple(ctx *Ctx, ms []cty.Value) {
 	if p, _ := try(func() { ov.GetAttr("undeclared") }); !p {
 		ctx.Fail(Failure{Site: "getattr", Sig: "getattr:undeclared-accepted", What: "GetAttr of an undeclared attribute yielded a value", Input: encVal(ov), GoLit: ov.GoString(), Outcome: "no panic"})
 	}
+}
+
+// nonIntegerNumber: a known, non-null number that is not whole (whole numbers compare and hash exactly)
+func nonIntegerNumber(v cty.Value) bool {
+	if v.Type() != cty.Number || !v.IsKnown() || v.IsNull() {
+		return false
+	}
+	f := v.AsBigFloat()
+	return !f.IsInf() && !f.IsInt()
+}
+
+// c02HasElementRef: HasElement(probe) against a linear scan of the members using Equals.  A disagreement is a
+// VIOLATION, except for the one recorded root cause, which gets its own signature: the needle Equals a member (number
+// equality is equality of Text('f',-1) at each number's own precision) but the two hash differently (the set hash
+// uses String() = 10 significant digits of the exact value), so the member's bucket is never scanned.  That signature
+// is assigned only when EVERY Equals-true member is a non-integer number whose hash bytes differ from the needle's.
+func c02HasElementRef(ctx *Ctx, s cty.Value, ms []cty.Value, probe cty.Value) {
+	w := encVal(s)
+	inRef := false
+	var eq []cty.Value
+	for _, m := range ms {
+		if m.Equals(probe).True() {
+			inRef = true
+			eq = append(eq, m)
+		}
+	}
+	h := s.HasElement(probe)
+	if h.IsKnown() && h.True() == inRef {
+		return
+	}
+	sig, what := "haselement:reference", "HasElement disagrees with a linear scan using Equals"
+	if inRef && h.IsKnown() && h.False() && nonIntegerNumber(probe) {
+		pb, pp := cty.VerifHashBytes(probe)
+		all := !pp
+		for _, m := range eq {
+			mb, mp := cty.VerifHashBytes(m)
+			if mp || !nonIntegerNumber(m) || string(mb) == string(pb) {
+				all = false
+			}
+		}
+		if all {
+			sig = "haselement:equal-numbers-hash-by-String()-differs"
+			what = "HasElement misses a member that Equals the needle: two non-integer numbers with the same shortest decimal text (Equals-true) whose 10-significant-digit String() texts, which the set hash uses, differ"
+		}
+	}
+	ctx.Fail(Failure{Site: "haselement", Sig: sig, What: what, Input: w + " " + encVal(probe), GoLit: s.GoString() + ".HasElement(" + probe.GoString() + ")", Outcome: h.GoString()})
 }
